@@ -82,6 +82,9 @@ func (db *PreparedStmtDB) prepare(ctx context.Context, conn ConnPool, isTransact
 	if stmt, ok := db.Stmts[query]; ok && (!stmt.Transaction || isTransaction) {
 		db.Mux.RUnlock()
 		verifPoint("ps:hit", ctx, stmt)
+		if isTransaction && !stmt.Transaction && !stmt.isPrepared() {
+			return prepareOnTx(ctx, conn, query)
+		}
 		// wait for other goroutines prepared
 		<-stmt.prepared
 		if stmt.prepareErr != nil {
@@ -98,6 +101,9 @@ func (db *PreparedStmtDB) prepare(ctx context.Context, conn ConnPool, isTransact
 	if stmt, ok := db.Stmts[query]; ok && (!stmt.Transaction || isTransaction) {
 		db.Mux.Unlock()
 		verifPoint("ps:hit", ctx, stmt)
+		if isTransaction && !stmt.Transaction && !stmt.isPrepared() {
+			return prepareOnTx(ctx, conn, query)
+		}
 		// wait for other goroutines prepared
 		<-stmt.prepared
 		if stmt.prepareErr != nil {
@@ -146,6 +152,28 @@ func (db *PreparedStmtDB) prepare(ctx context.Context, conn ConnPool, isTransact
 	db.Mux.Unlock()
 
 	return cacheStmt, nil
+}
+
+// isPrepared reports whether the preparation of the cached statement has finished.
+func (stmt *Stmt) isPrepared() bool {
+	select {
+	case <-stmt.prepared:
+		return true
+	default:
+		return false
+	}
+}
+
+// prepareOnTx prepares query on the transaction itself, without caching it. A transaction holds a
+// connection, so it must not wait for a preparation in progress on the connection pool: that
+// preparation may be waiting for a free connection, which deadlocks once the pool is exhausted.
+// The statement belongs to the transaction and is closed with it.
+func prepareOnTx(ctx context.Context, conn ConnPool, query string) (Stmt, error) {
+	stmt, err := conn.PrepareContext(ctx, query)
+	if err != nil {
+		return Stmt{}, err
+	}
+	return Stmt{Stmt: stmt, Transaction: true}, nil
 }
 
 func (db *PreparedStmtDB) BeginTx(ctx context.Context, opt *sql.TxOptions) (ConnPool, error) {
